@@ -31,6 +31,8 @@ def A(fam, i, k, K):
         return 384 if (i + k) % 2 == 0 else -320
     if fam == "bigf":
         return 128
+    if fam == "bigm":
+        return -128 if (i + k) % 4 == 3 else 127
     return 127 if (i + k) % 2 == 0 else -128
 
 
@@ -45,6 +47,8 @@ def W8(fam, j, k):
         return -384 if (j + k) % 3 == 0 else 256
     if fam == "bigf":
         return 127 - (j % 3)
+    if fam == "bigm":
+        return -256 if (j + k) % 5 == 0 else 384
     return -128 if (j + k) % 3 == 0 else 127
 
 
